@@ -339,6 +339,39 @@ func (g *genCtx) drawModule(name string, label string) *Module {
 			g.structs = append(g.structs, name+"."+sname)
 		}
 	}
+	// a "defaults matrix" struct: one optional member of every scalar kind (and string, and
+	// an enum when the module has one) with a declared default away from the zero value, so
+	// that every program exercises "absent => declared default" for every reader
+	if !enumOnly && g.pick(2, label+".defaults") == 0 {
+		sname := fmt.Sprintf("SD%s", name)
+		st := &rc.StructJ{Module: name, Name: sname}
+		kinds := scalarKinds
+		tag := g.pick(3, label+".dtag0")
+		for i, k := range kinds {
+			f := &rc.FieldJ{Name: fmt.Sprintf("d%d", i), Tag: tag, Type: &rc.TypeJ{K: k}}
+			g.drawDefault(f, label+".ddv")
+			switch {
+			case f.DefKind == "int" && f.DefStr == "0":
+				f.DefStr, f.DefaultSrc = "7", "7"
+			case f.DefKind == "float" && (f.DefStr == "0.000" || f.DefStr == "-0.000"):
+				f.DefStr, f.DefaultSrc = "1.500", "1.500"
+			case f.DefKind == "bool":
+				f.DefStr, f.DefaultSrc = "true", "true"
+			case f.DefKind == "string" && f.DefStr == "":
+				f.DefStr, f.DefaultSrc = "dflt", "\"dflt\""
+			}
+			st.Fields = append(st.Fields, f)
+			tag += 1 + g.pick(2, label+".dgap")
+		}
+		if len(m.Enums) > 0 {
+			f := &rc.FieldJ{Name: "de", Tag: tag, Type: &rc.TypeJ{K: "enum", Ref: name + "." + m.Enums[0].Name}}
+			g.drawDefault(f, label+".dev")
+			st.Fields = append(st.Fields, f)
+		}
+		m.Structs = append(m.Structs, st)
+		m.DeclOrder = append(m.DeclOrder, seq(len(st.Fields)))
+		g.structs = append(g.structs, name+"."+sname)
+	}
 	// a "boundary" struct: optional members just below the extended-tag boundary followed
 	// by members with tags 15, 16 and 255 (two-byte heads); declared last so that the
 	// interfaces below tend to use it
